@@ -165,6 +165,27 @@ def _reach_skipping_invariant_sides(f, lp, start, defblocks):
     return seen
 
 
+TUPLE_READS = ("get_coord", "xy", "xyz", "xyzt")
+
+
+def _tuple_atoms(t):
+    """which elements of the operand tuple a term reads: {0, 1, 2, 3} or 'all' for a tuple used whole"""
+    out = set()
+
+    def v(x):
+        if x[0] == "proj" and isinstance(x[2], tuple) and x[2][0] in ("elem", "f") and len(x[2]) > 1 and isinstance(x[2][1], int):
+            b = mir.strip_refs(x[1])
+            if b[0] == "call" and isinstance(b[1], str) and b[1].rsplit("::", 1)[-1] in TUPLE_READS:
+                out.add(x[2][1])
+                return False
+        if x[0] == "call" and isinstance(x[1], str) and x[1].rsplit("::", 1)[-1] in TUPLE_READS:
+            out.add("all")
+            return False
+        return True
+    mir.walk(t, v)
+    return out
+
+
 def memo_guard(f, lp, l, exclude=frozenset()):
     """Recognise the memo idiom for carried local l of loop lp. Returns (ok, reason)."""
     h = lp.header
@@ -256,6 +277,17 @@ def memo_guard(f, lp, l, exclude=frozenset()):
                     if l == m and not is_nan_const(o):
                         okm = False
             if okm:
+                # the memo is sound only if the cached value depends on the tuple through the key alone
+                want = _tuple_atoms(a)
+                for o in latch_ops:
+                    for lf in leaves(o, h):
+                        if is_carry(lf, h, l):
+                            continue
+                        extra = _tuple_atoms(lf) - want
+                        if extra and l != m:
+                            return False, "%s is cached under the key %s but computed from other elements of the tuple (%s): " \
+                                          "tuples that agree in the key and differ there get the previous tuple's value" % (
+                                              f.lname(l), f.lname(m), ", ".join(sorted(str(x) for x in extra)))
                 return True, "memo idiom: recomputed from the tuple's own key whenever it differs from %s" % f.lname(m)
     return False, "%s is assigned on some iterations only and carried over otherwise, without the memo guard " \
                   "(key != memo; memo := key; initial memo NaN)" % f.lname(l)
